@@ -242,6 +242,11 @@ func MutexUnlock(m *MutexState) bool {
 	if !t.ok {
 		panic(fatalMisuse{"sync: unlock of unlocked mutex"})
 	}
+	if t.x.opts.PostUnlock {
+		// code that follows an unlock touches shared data without the lock if it is wrong: give the
+		// scheduler a point right after the release, before any such plain access
+		simple(OpPoint, nil, nil)
+	}
 	return true
 }
 
@@ -273,6 +278,11 @@ func RWUnlock(m *RWState) bool {
 	if !t.ok {
 		panic(fatalMisuse{"sync: Unlock of unlocked RWMutex"})
 	}
+	if t.x.opts.PostUnlock {
+		// code that follows an unlock touches shared data without the lock if it is wrong: give the
+		// scheduler a point right after the release, before any such plain access
+		simple(OpPoint, nil, nil)
+	}
 	return true
 }
 
@@ -287,6 +297,11 @@ func RWRUnlock(m *RWState) bool {
 	}
 	if !t.ok {
 		panic(fatalMisuse{"sync: RUnlock of unlocked RWMutex"})
+	}
+	if t.x.opts.PostUnlock {
+		// code that follows an unlock touches shared data without the lock if it is wrong: give the
+		// scheduler a point right after the release, before any such plain access
+		simple(OpPoint, nil, nil)
 	}
 	return true
 }
